@@ -150,6 +150,8 @@ fn check(ctx: &mut Ctx, c: &Case, o: &mut Outcome) -> R<()> {
                 describe_all(&db)
             )
         };
+        o.count("sessions_run_to_completion", 2);
+        o.count("messages_exchanged", t.msgs.len() as u64);
         if !t.completed {
             o.fail("C01/no-termination", format!("session still running after {} messages (bound {}); {}", t.msgs.len(), bound, ctxs()));
             break;
